@@ -131,3 +131,371 @@ Eval vm_compute in ("%(tag)s"%%string, check_main (main cp %(mp)d%%nat E extra_o
            afun=nl(afun), comb=nll(comb), pu=pu, pm=pm, ps=ps, fu=fu, fm=fm, fs=fs, tag=tag, mp=mp,
            check="true" if cr else "false")
     return v, ids
+
+
+# ------------------------------------------------------------------ runs of the real generation
+
+def run_list(ctx):
+    """[(runname, basis-or-None, nmax)]"""
+    nmax = 4 if ctx.quick else 5
+    runs = [(b, None, nmax) for b in SHIPPED]
+    runs += [(name, basis, nmax) for name, basis in SUBBASES.items()]
+    if not ctx.quick:
+        rng = esrv.rng(ctx.seed, "C03/random-subbases")
+        unary = ["inv", "square", "cube", "sqrt_abs", "exp", "log_abs", "sin", "tenexp", "log10_abs"]
+        binary = ["+", "*", "-", "/", "pow"]
+        for k in range(6):
+            u = sorted(rng.sample(unary, rng.randint(1, 3)))
+            b = sorted(rng.sample(binary, rng.randint(1, 3)))
+            runs.append(("verif_rnd%d" % k, [["x", "a"], u, b], 4))
+    return runs
+
+
+def trace_run(ctx, runname, basis, nmax):
+    extra = {"ESR_VERIF_BASIS": json.dumps(basis)} if basis is not None else None
+    rc, out, err = esrv.run_py(ctx.scratch, IMPL, ["trace", runname] + [str(n) for n in range(1, nmax + 1)],
+                               extra=extra, timeout=3000)
+    if rc != 0:
+        return None, err[-2000:]
+    try:
+        return json.loads(out), None
+    except Exception as e:
+        return None, "unparsable driver output: %s" % e
+
+
+def coq_check_run(recs):
+    """one generated file per run name, one Module per complexity; returns {n: failing component numbers or error text}"""
+    parts = ["From Coq Require Import List NArith String.\nFrom ESRV Require Import Model.Uniq Model.DoSympy.\n"]
+    tags = {}
+    for rec in recs:
+        tag = "C03-%s-%d" % (rec["runname"], rec["n"])
+        try:
+            v, _ = case_v(rec, tag)
+        except ValueError as e:
+            tags[rec["n"]] = "recorded run outside the model's assumptions: %s" % e
+            continue
+        body = v.split("Open Scope N_scope.\n", 1)[1]
+        parts.append("Module R%d.\nImport ListNotations.\nOpen Scope N_scope.\n%sEnd R%d.\n" % (rec["n"], body, rec["n"]))
+        tags[rec["n"]] = tag
+    rc, out = esrv.coq_run("".join(parts), timeout=3000)
+    flat = " ".join(out.split()).replace("%string", "")
+    res = {}
+    for n, tag in tags.items():
+        if not tag.startswith("C03-"):
+            res[n] = tag
+        elif '("%s", [])' % tag in flat:
+            res[n] = []
+        else:
+            i = flat.find('("%s", [' % tag)
+            res[n] = flat[i:i + 200] if i >= 0 else ("coqc rc=%d: %s" % (rc, flat[-600:]))
+    return res
+
+
+COMPONENTS = {0: "model stopped (None): stopping rule / shuffle / KeyError", 1: "all_fun handed to do_sympy (extra trees inherit)",
+              2: "arguments of the sympy_simplify calls", 3: "inv_idx round files", 4: "inv_subs round files",
+              5: "round1_count", 6: "number of executed rounds", 7: "all_fun returned by do_sympy",
+              8: "concatenated chains handed to simplify_inv_subs", 9: "unique_equations before check_results",
+              10: "matches before check_results", 11: "inv_subs before check_results", 12: "final unique_equations",
+              13: "final matches", 14: "final inv_subs", 15: "row counts of the per-round tables"}
+
+
+def uniq_correspondence(ctx):
+    rep = ctx.report
+    maxlen, nsym = (7, 3)
+    rc, out, err = esrv.run_py(ctx.scratch, IMPL, ["uniq", str(maxlen), str(nsym)], timeout=1200)
+    if rc != 0:
+        rep.fail("broken-correspondence", "uniq driver failed", "C03:uniq-driver", observed=err[-2000:], theorem="Uniq.v tie")
+        return
+    d = json.loads(out)
+
+    def pl(p):
+        return "[" + "; ".join("(%d, %d)" % (a, b) for a, b in p) + "]"
+    bad = []
+    shards = [d["gui"][i:i + 1200] for i in range(0, len(d["gui"]), 1200)]
+    gshards = [d["gmi"][i:i + 1500] for i in range(0, len(d["gmi"]), 1500)]
+    hdr = ("From Coq Require Import List NArith String.\nFrom ESRV Require Import Common.Corr Model.Uniq Model.DoSympy.\n"
+           "Import ListNotations.\nOpen Scope N_scope.\n"
+           "Definition pe (a b : N * N) := (N.eqb (fst a) (fst b) && N.eqb (snd a) (snd b))%bool.\n"
+           "Definition cv (d : list (N * nat)) := map (fun kv => (fst kv, N.of_nat (snd kv))) d.\n")
+
+    def run_shard(kind, k, sh):
+        if kind == "gui":
+            cases = "; ".join("(%s, %s, %s)" % (nl(L), pl(r), pl(m)) for L, r, m in sh)
+            v = hdr + ("Definition cases : list (list N * list (N*N) * list (N*N)) := [%s].\n"
+                       "Eval vm_compute in (\"GUI\"%%string, failing (fun c => match c with (L, r, m) => "
+                       "(leqb pe (cv (gui_result N.eqb L)) r && leqb pe (cv (gui_match N.eqb L)) m)%%bool end) cases).\n" % cases)
+            want = '("GUI", [])'
+        else:
+            cases = "; ".join("(%s, %s, %s)" % (nl(a), nl(b), "None" if r is None else "Some " + nl(r)) for a, b, r in sh)
+            v = hdr + ("Definition cases : list (list N * list N * option (list N)) := [%s].\n"
+                       "Eval vm_compute in (\"GMI\"%%string, failing (fun c => match c with (a, b, r) => "
+                       "match get_match_indexes N.eqb a b, r with Some x, Some y => lN_eqb (nats x) y | None, None => true | _, _ => false end end) cases).\n" % cases)
+            want = '("GMI", [])'
+        rc, out = esrv.coq_run(v)
+        flat = " ".join(out.split()).replace("%string", "")
+        return (kind, k, rc == 0 and want in flat, flat[-400:])
+    import concurrent.futures as cf
+    jobs = [("gui", k, sh) for k, sh in enumerate(shards)] + [("gmi", k, sh) for k, sh in enumerate(gshards)]
+    with cf.ThreadPoolExecutor(max_workers=6) as ex:
+        for kind, k, ok, flat in ex.map(lambda j: run_shard(*j), jobs):
+            if not ok:
+                bad.append((kind, k, flat))
+    for L, r, m in d["gui"]:
+        rep.case(key=("gui", tuple(L)), nontrivial=len(set(L)) < len(L), sample={"L": L, "result": r, "match": m})
+    for a, b, r in d["gmi"]:
+        rep.case(key=("gmi", tuple(a), tuple(b)), nontrivial=len(b) > 0 and len(a) > 1, sample=None)
+    rep.traces += len(d["gui"]) + len(d["gmi"])
+    for kind, k, flat in bad[:3]:
+        rep.fail("broken-correspondence", "Model/Uniq.v and utils.%s differ (shard %d)" % (
+            "get_unique_indexes" if kind == "gui" else "get_match_indexes", k), "C03:uniq-corr-" + kind, observed=flat,
+            theorem="C03_uniq_spec / C03_get_match_indexes_spec (Model/Uniq.v)")
+
+
+def correspondence(ctx):
+    import concurrent.futures as cf
+    rep = ctx.report
+    uniq_correspondence(ctx)
+    os.makedirs(os.path.join(ctx.scratch, "esr", "function_library"), exist_ok=True)
+    runs = run_list(ctx)
+    ctx.c03_recs = []
+    with cf.ThreadPoolExecutor(max_workers=7) as ex:
+        traces = list(ex.map(lambda r: (r, trace_run(ctx, *r)), runs))
+    good = []
+    for (runname, basis, nmax), (recs, err) in traces:
+        if recs is None:
+            rep.fail("broken-correspondence", "real duplicate_checker.main failed under the recording wrappers for %s" % runname,
+                     "C03:trace-driver:" + runname, input={"run": runname, "basis": basis, "nmax": nmax}, observed=err,
+                     theorem="oracle-trace replay")
+            continue
+        for rec in recs:
+            rec["basis"] = basis
+        good.append(recs)
+        ctx.c03_recs += recs
+    with cf.ThreadPoolExecutor(max_workers=5) as ex:
+        results = list(ex.map(coq_check_run, good))
+    ncalls = 0
+    for recs, res in zip(good, results):
+        for rec in recs:
+            r = res.get(rec["n"])
+            nch = sum(1 for row in rec["final"]["subs"] if any(c.strip() for c in row))
+            tc = (rec["check_results"] or {}).get("to_change") or []
+            rep.case(key=("trace", rec["runname"], rec["n"]), nontrivial=nch > 0,
+                     sample={"run": rec["runname"], "n": rec["n"], "functions": len(rec["final"]["all"]),
+                             "uniques": len(rec["final"]["uniq"]), "rounds": rec["do_sympy"]["nround"],
+                             "sympy_simplify_calls": len(rec["calls"]), "functions_with_chain": nch,
+                             "extra_trees": len(rec["extra_orig"] or []), "unmerged_by_check_results": len(tc)})
+            ncalls += len(rec["calls"])
+            if r != []:
+                what = (", ".join(COMPONENTS.get(int(x), x) for x in r[r.find("[") + 1:r.find("]")].replace(";", " ").split())
+                        if isinstance(r, str) and r.startswith("(") else str(r))
+                rep.fail("broken-correspondence", "Model/DoSympy.v fed with the recorded oracle answers does not reproduce the real run "
+                         "%s n=%d: %s" % (rec["runname"], rec["n"], what), "C03:trace-corr",
+                         input={"run": rec["runname"], "basis": rec["basis"], "n": rec["n"]}, observed=str(r)[:600],
+                         theorem="C03_chain_sound / C03_rows_aligned / C03_unmerge_sound / C03_library (Model/DoSympy.v)")
+    rep.traces += ncalls
+    # negative control: the comparison must notice a perturbed expectation
+    small = [rec for rec in ctx.c03_recs if rec["runname"] == "core_maths" and rec["n"] == 3]
+    if small:
+        rec = json.loads(json.dumps(small[0]))
+        m = rec["final"]["matches"]
+        m[0], m[1] = m[1] + 1, m[0]
+        res = coq_check_run([rec])
+        if res.get(3) == [] or "13" not in str(res.get(3)):
+            rep.fail("broken-correspondence", "negative control: a perturbed final matches file was not flagged by the model comparison",
+                     "C03:trace-negative-control", observed=str(res), theorem="oracle-trace replay")
+    rep.rule = ("uniq: every list over 3 symbols up to length 7 through the real get_unique_indexes and every (a,b) with |a|<=4, |b|<=3 "
+                "through get_match_indexes vs Model/Uniq.v (non-trivial: a repeated value); trace: real duplicate_checker.main on the six "
+                "shipped bases and %d sub-bases (cube, no '-', sin, exp/log only, ...) for n=1..%d with recording wrappers; the recorded "
+                "sympy_simplify answers, shuffle permutation, simplify_inv_subs table and check_results' to_change are fed to "
+                "Model/DoSympy.v under vm_compute and 15 components (call arguments, per-round files, round counts, all_fun, concatenated "
+                "chains, the three files before and after check_results) are compared as id lists (non-trivial: some function has a chain)"
+                % (len(runs) - len(SHIPPED), 4 if ctx.quick else 5))
+    rep.exhaustive = False
+
+
+# ------------------------------------------------------------------ search: the statement on the libraries
+
+def step_validation(rec, rng, lo):
+    """each distinct recorded oracle step (f -> f', chain): numeric check of the contract used by the theorems"""
+    import mpmath as mp
+    st = {"trivial": 0, "certified": 0, "nan_fewer": 0, "undecided": 0, "uncertified": []}
+    seen = set()
+    for c in rec["calls"]:
+        for fin, fout, ch in zip(c["in"], c["out"], c["chains"]):
+            ch = [x.strip() for x in (ch or [])]
+            key = (fin, fout, tuple(ch))
+            if key in seen:
+                continue
+            seen.add(key)
+            if fin == fout and not ch:
+                st["trivial"] += 1
+                continue
+            kf, ku = len(lo.count_params(fin)), len(lo.count_params(fout))
+            if "nan" in ch:
+                if ku < kf:
+                    st["nan_fewer"] += 1
+                else:
+                    st["uncertified"].append({"in": fin, "out": fout, "chain": ch, "why": "nan step without fewer parameters"})
+                continue
+            try:
+                chain = [lo.parse_sub(x) for x in ch]
+            except Exception as e:
+                st["uncertified"].append({"in": fin, "out": fout, "chain": ch, "why": "unparsable: %s" % e})
+                continue
+            npar = max([kf, ku, 1] + [int(k[1:]) + 1 for d in chain for k, _ in d if k[1:].isdigit()] +
+                       [max(lo.count_params(fin) + [0]) + 1, max(lo.count_params(fout) + [0]) + 1])
+            res, det = lo.same_function(lambda x, th: lo.eval_string(fin, x, lo.apply_chain(chain, th)),
+                                        lambda x, th: lo.eval_string(fout, x, th), lo.gen_points(rng, npar, 8))
+            if res == "undecided":
+                res, det = lo.same_function(lambda x, th: lo.eval_string(fin, x, lo.apply_chain(chain, th)),
+                                            lambda x, th: lo.eval_string(fout, x, th), lo.gen_points(rng, npar, 32))
+            if res == "diff":
+                st["uncertified"].append({"in": fin, "out": fout, "chain": ch, "why": "numeric difference", "point": det})
+            elif ku > kf:
+                st["uncertified"].append({"in": fin, "out": fout, "chain": ch, "why": "parameter count grows"})
+            elif res == "undecided":
+                st["undecided"] += 1
+            else:
+                st["certified"] += 1
+    return st
+
+
+def extra_validation(rec, rng, lo):
+    """C11 contract used by C03_library: an extra tree's own string denotes the same function as its original's"""
+    E = rec["final"]["all"]
+    xo = rec["extra_orig"] or []
+    st = {"equal": 0, "identical": 0, "undecided": 0, "differ": []}
+    base = len(E) - len(xo)
+    for k, f in enumerate(xo):
+        a, b = E[base + k], E[f]
+        if a == b:
+            st["identical"] += 1
+            continue
+        npar = max(lo.count_params(a) + lo.count_params(b) + [0]) + 1
+        res, det = lo.same_function(lambda x, th: lo.eval_string(a, x, th), lambda x, th: lo.eval_string(b, x, th),
+                                    lo.gen_points(rng, npar, 8))
+        if res == "diff":
+            st["differ"].append({"extra_index": base + k, "extra": a, "orig_index": f, "orig": b, "point": det})
+        elif res == "undecided":
+            st["undecided"] += 1
+        else:
+            st["equal"] += 1
+    return st
+
+
+def search_one(args):
+    """runs in a worker process: the C03 statement on one library + validation of the recorded steps"""
+    rec, seed = args
+    sys.path.insert(0, os.path.join(esrv.VERIF, "harness", "lib"))
+    import liboracle as lo
+    import random
+    lib = lo.load_library(rec["dir"], rec["n"])
+    viol, stats = lo.check_c03(lib, seed)
+    rng = random.Random("%s/%s/%d/steps" % (seed, rec["runname"], rec["n"]))
+    steps = step_validation(rec, rng, lo)
+    extra = extra_validation(rec, rng, lo)
+    # check_results appends un-merged strings without testing them against the existing unique list
+    cr = rec.get("check_results")
+    clash = []
+    if cr and cr.get("to_change"):
+        pre = cr["pre"]
+        for t in cr["to_change"]:
+            if pre["all"][t] in pre["uniq"]:
+                clash.append({"index": t, "function": pre["all"][t], "existing_unique_index": pre["uniq"].index(pre["all"][t])})
+    return {"run": rec["runname"], "n": rec["n"], "viol": viol, "stats": stats, "steps": steps, "extra": extra, "clash": clash}
+
+
+def search(ctx):
+    import concurrent.futures as cf
+    rep = ctx.report
+    recs = getattr(ctx, "c03_recs", [])
+    slim = []
+    for rec in recs:
+        slim.append(({k: rec[k] for k in ("runname", "n", "dir", "calls", "final", "extra_orig", "check_results")}, ctx.seed))
+    tot = {"functions": 0, "checked": 0, "with_chain": 0, "nan": 0, "undecided": 0,
+           "steps_certified": 0, "steps_nan_fewer": 0, "steps_undecided": 0, "steps_trivial": 0, "steps_uncertified": 0,
+           "extra_equal": 0, "extra_identical": 0, "extra_undecided": 0, "extra_differ": 0, "unmerged": 0}
+    unc_samples, ext_samples = [], []
+    basis_of = {(rec["runname"], rec["n"]): rec.get("basis") for rec in recs}
+    with cf.ProcessPoolExecutor(max_workers=8) as ex:
+        results = list(ex.map(search_one, slim))
+    nrep = 0
+    for r in results:
+        s = r["stats"]
+        for k in ("functions", "checked", "with_chain", "nan", "undecided"):
+            tot[k] += s.get(k, 0)
+        tot["steps_certified"] += r["steps"]["certified"]
+        tot["steps_nan_fewer"] += r["steps"]["nan_fewer"]
+        tot["steps_undecided"] += r["steps"]["undecided"]
+        tot["steps_trivial"] += r["steps"]["trivial"]
+        tot["steps_uncertified"] += len(r["steps"]["uncertified"])
+        unc_samples += [dict(u, run=r["run"], n=r["n"]) for u in r["steps"]["uncertified"][:2]]
+        for k in ("equal", "identical", "undecided"):
+            tot["extra_" + k] += r["extra"][k]
+        tot["extra_differ"] += len(r["extra"]["differ"])
+        ext_samples += [dict(u, run=r["run"], n=r["n"]) for u in r["extra"]["differ"][:2]]
+        rep.case(key=("library", r["run"], r["n"]), nontrivial=s.get("with_chain", 0) > 0,
+                 sample={"run": r["run"], "n": r["n"], "stats": s, "recorded_steps": {k: (v if isinstance(v, int) else len(v))
+                                                                                      for k, v in r["steps"].items()}})
+        basis = basis_of.get((r["run"], r["n"])) or r["run"]
+        for v in r["viol"]:
+            if nrep >= 12:
+                break
+            nrep += 1
+            rep.fail("failing-input", "library %s n=%d violates C03 (%s): %s" % (
+                r["run"], r["n"], v["kind"], json.dumps({k: v[k] for k in v if k != "kind"}, default=str)[:300]),
+                "C03:" + v["kind"], input=dict(v, basis=basis, n=r["n"], run=r["run"]),
+                observed=v.get("point") or v, expected="f_i(sigma_i(theta)) == u_{m_i}(theta) at generic points; nan only with "
+                "strictly fewer parameters; distinct gap-free uniques; one row per function")
+        for c in r["clash"]:
+            rep.fail("failing-input", "check_results appended the un-merged function %d of %s n=%d as a new unique although the same "
+                     "string is already unique %d" % (c["index"], r["run"], r["n"], c["existing_unique_index"]),
+                     "C03:unmerge:appended-unique-already-present", input=dict(c, basis=basis, n=r["n"], run=r["run"]),
+                     observed=c, expected="unique entries pairwise distinct")
+    for rec in recs:
+        tot["unmerged"] += len((rec.get("check_results") or {}).get("to_change") or [])
+    rep.extra["c03_totals"] = tot
+    rep.extra["uncertified_step_samples"] = unc_samples[:8]
+    rep.extra["extra_tree_contract_failures"] = ext_samples[:8]
+
+
+TRUSTED = [
+    "Coq 8.16.1 kernel + vm_compute (no native_compute)",
+    "Print Assumptions: every C03 theorem is closed under the global context (no axioms; strings/substitutions are abstract ids, "
+    "values and parameter vectors abstract types)",
+    "hand-written models coq/Model/Uniq.v and coq/Model/DoSympy.v, tied to the source on every run by oracle-trace replay: the real "
+    "duplicate_checker.main runs with recording wrappers and the model, fed with the recorded oracle answers, must reproduce call "
+    "arguments, per-round files, round counts, all_fun, concatenated chains and the three files before/after check_results",
+    "sympy (sympy_simplify, expand_or_factor, the equality test inside check_results), numpy's shuffle and simplify_inv_subs are ORACLES: "
+    "their answers are inputs of the model; each recorded sympy_simplify step is validated numerically (mpmath, 30 digits) and counted "
+    "certified/uncertified in the evidence, not proved",
+    "harness/lib/liboracle.py (independent evaluators, the numeric C03 statement) and mpmath",
+    "MPI stand-in harness/fakempi (single rank); text round trip of the chain files is C17's subject and enters here only through the "
+    "comparison of the re-combined chains",
+]
+ASSUMPTIONS = [
+    "oracle contract (hypothesis run_sound): every executed sympy_simplify step (f -> f', chain c) satisfies f(compose c theta) = f'(theta) "
+    "for all theta when c has no nan, a chain with nan comes with strictly fewer parameters, and no step increases the parameter count; "
+    "equalities are everywhere-equalities of an abstract denotation (partiality, e.g. a0 = 0 under {a0: 1/a0}, is idealised away; the "
+    "numeric search compares at generic points only)",
+    "simplify_inv_subs preserves the composition and the presence of nan (hypothesis cancel_ok; C17's subject)",
+    "np.random.shuffle leaves a permutation of 0..U-1 (hypothesis; the recorded array is checked by the model run returning Some)",
+    "an extra tree's own string denotes the same function as its original's string with no more parameters (hypothesis; C11's subject; "
+    "validated numerically per library and reported)",
+    "all_inv_subs is [None]*N at the start of every round (so the slice branch t[k][len(uniq_inv_subs):] is dead); asserted on the "
+    "recorded calls (tin all None) on every run",
+    "the final unique list is duplicate-free after check_results only if no un-merged function's own string is already a unique "
+    "(C03_unmerge_can_duplicate shows the model allows it; the search reports any real occurrence)",
+]
+LEVEL_TEXT = ("Machine-checked theorems (Coq, no axioms) on a faithful model of the duplicate-merging bookkeeping: get_unique_indexes / "
+              "get_match_indexes specifications; for ANY shuffle permutation uniq'[match_idx k] = all_fun k; and, for any number of rounds in "
+              "both phases, with sympy's answers as contract-bound oracles, every function composed with its concatenated, file-recombined, "
+              "cancelled chain denotes exactly its unique, nan rows imply strictly fewer parameters, every table has one row per function, "
+              "and check_results' un-merge leaves every touched function as its own unique with an empty row and all others unchanged. "
+              "The model is tied to the code by replaying recorded oracle answers of real generation runs through it on every check. "
+              "Tests can sample libraries but cannot quantify over rounds, permutations and oracle behaviours.")
+LEVEL_NOTE = ("Not proved: that sympy's individual rewrites satisfy the contract (each recorded step is checked numerically and counted); "
+              "the text round trip of chain files (C17); that extra trees equal their originals (C11). Post-un-merge distinctness of uniques "
+              "holds only under a side condition that check_results does not test.")
+TECHNIQUE = ("Coq proof over hand-written models (list/dict induction, round invariant, composition order) + oracle-trace replay of real "
+             "runs under vm_compute + exhaustive small-list correspondence + mpmath statement check on every generated library")
